@@ -5,6 +5,8 @@
 package rt
 
 import (
+	"errors"
+	"fmt"
 	"iter"
 	"math"
 	"runtime"
@@ -14,6 +16,7 @@ type Rec struct {
 	Log    [][]any
 	Tape   []bool
 	Budget int
+	PK     int // which Go value instantiates the specification's panic token "boom" (PanicKind of Rec.tla)
 
 	// C17: periodic tape and call-depth probe
 	Pattern   []bool // when set, an exhausted Tape is refilled from Pattern, Repeat times
@@ -28,7 +31,77 @@ type Rec struct {
 }
 
 func NewRec(tape []bool, budget int) *Rec {
-	return &Rec{Tape: append([]bool{}, tape...), Budget: budget, Log: [][]any{}}
+	return &Rec{Tape: append([]bool{}, tape...), Budget: budget, Log: [][]any{}, PK: PanicKind(tape)}
+}
+
+// PanicKind is PanicKind of spec/Rec.tla: (length + number of TRUE entries of the initial tape) mod 5.
+func PanicKind(tape []bool) int {
+	n := len(tape)
+	for _, b := range tape {
+		if b {
+			n++
+		}
+	}
+	return n % 5
+}
+
+type boomT struct {
+	A int
+	B string
+}
+
+var (
+	ErrBoom = errors.New("boom")
+	PtrBoom = &boomT{1, "boom"}
+	valBoom = boomT{7, "boom"}
+)
+
+const nilMapText = "assignment to entry in nil map"
+
+// Boom returns the Go value that stands for the specification's panic token "boom" in this run:
+// a string, an error value, a pointer, a struct value; kind 4 raises a genuine runtime error instead.
+func (r *Rec) Boom() any {
+	switch r.PK {
+	case 1:
+		return ErrBoom
+	case 2:
+		return PtrBoom
+	case 3:
+		return valBoom
+	case 4:
+		var m map[int]int
+		m[0] = 1
+	}
+	return "boom"
+}
+
+// PanicStr maps a recovered panic value back to the specification's vocabulary: the token "boom" only
+// for the ORIGINAL value (identity for errors and pointers, equality for values, a runtime.Error with
+// the original text), otherwise a description that equals no expectation of the specification.
+func PanicStr(p any) string {
+	switch v := p.(type) {
+	case string:
+		return v
+	case *boomT:
+		if v == PtrBoom {
+			return "boom"
+		}
+	case boomT:
+		if v == valBoom {
+			return "boom"
+		}
+	case error:
+		if v == ErrBoom {
+			return "boom"
+		}
+		if re, ok := v.(runtime.Error); ok && re.Error() == nilMapText {
+			return "boom"
+		}
+		if _, ok := v.(runtime.Error); ok {
+			return fmt.Sprint(p) // other runtime errors are compared by their text (index out of range ...)
+		}
+	}
+	return fmt.Sprintf("(%T) %v", p, p)
 }
 
 func (r *Rec) spend() {
@@ -148,7 +221,7 @@ func Two(a, b int) (int, int) { return a + 10, b + 1 }
 func (r *Rec) W(x int) int { r.log("w", x); return x }
 
 // B is a one-argument call that panics.
-func (r *Rec) B(x int) int { panic("boom") }
+func (r *Rec) B(x int) int { panic(r.Boom()) }
 
 // NilOf is the operand of `return <expr>` in a generator: evaluated, logged, discarded.
 func NilOf[T any](r *Rec, id int) (z T) { r.log("v", id, 0); return }
